@@ -427,6 +427,12 @@ def denote(r, defs, memo=None) -> Den:
         inner = r['op']
         while inner['k'] in ('ref', 'reduced', 'pos'):
             inner = defs[inner['i']] if inner['k'] == 'ref' else inner['op']
+        if inner['k'] == 'block' and inner['kind'] == 'diag':
+            # block-wise (pseudo-)inverse
+            parts = [denote({'k': 'I', 'op': b}, defs, memo) for b in _block_leaves(inner['blocks'])]
+            fl = set().union(*[p_.flags for p_ in parts])
+            return Den(_block_diag([p_.M for p_ in parts]), _block_diag([p_.A for p_ in parts]), d.out_S, d.in_S,
+                       fl, max(p_.nf for p_ in parts))
         if inner['k'] == 'diag':
             dg = np.diag(d.M)
             with np.errstate(divide='ignore'):
